@@ -1,0 +1,37 @@
+//go:build verif
+
+package cli
+
+import (
+	"io"
+
+	"github.com/pulumi/esc/cmd/esc/cli/client"
+)
+
+// Verification hooks for property C13 (build tag "verif"): expose the unexported output filter of `esc run`
+// and let an out-of-tree harness supply the unexported collaborators of the CLI.
+
+// VerifC13NewRedactor returns the filter `esc run` puts in front of a command's stdout/stderr for the given
+// secrets: newRedactor(w, newReplacer(secrets)).
+func VerifC13NewRedactor(w io.Writer, secrets []string) io.WriteCloser {
+	return newRedactor(w, newReplacer(secrets))
+}
+
+// VerifC13FS, VerifC13Environ and VerifC13Exec name the unexported collaborator interfaces of the CLI.
+type (
+	VerifC13FS      = escFS
+	VerifC13Environ = environ
+	VerifC13Exec    = cmdExec
+)
+
+// VerifC13Options fills in the unexported fields of Options.
+func VerifC13Options(
+	opts Options,
+	fs VerifC13FS,
+	env VerifC13Environ,
+	exec VerifC13Exec,
+	newClient func(userAgent, backendURL, accessToken string, insecure bool) client.Client,
+) *Options {
+	opts.fs, opts.environ, opts.exec, opts.newClient = fs, env, exec, newClient
+	return &opts
+}
